@@ -180,8 +180,11 @@ PROPS = {
             B("w_expr.cpp", "expr", quick=14, thorough=240, params="faults=1", oracles=["c01."] + RT_LIVE),
             B("w_expr.cpp", "expr", quick=8, thorough=120, params="faults=0", oracles=["c01."] + RT_LIVE),
             B("w_expr.cpp", "expr", quick=6, thorough=90, params="faults=1,more=1,wany=1", oracles=["c01."] + RT_LIVE),
+            # scopes: the attach/nest/future operations arbitrate "who completes the receiver" between the child and two stop paths
+            B("w_scope.cpp", "scope_v1", quick=4, thorough=60, oracles=["c01.", "c08.double", "c08.join-double", "c08.join-lost", "c09.outcome"] + RT_LIVE),
+            B("w_scope.cpp", "scope_v2", quick=3, thorough=45, oracles=["c01.", "c08.double", "c08.join-double", "c08.join-lost", "c09.outcome"] + RT_LIVE),
         ],
-        level_text=("Seeded sender-interpreter runs: a random expression tree (depth<=4, <=12 nodes, <=8 scripted leaves) over the real library adaptors, each node re-erased through a harness any_snd so that every edge is a tap; leaves complete inline or later on two actor threads with value/error/done and react to stop or ignore it; an external stop request is placed before start, after k yields or when a chosen leaf has started; faults: throwing callables, a throwing k-th Val copy, spurious weak-CAS failures and wake-ups; the root op state is destroyed inside the root receiver's completion in most runs. C01 oracles: at every tap and at the root at most one signal, none before start(), none without start, none after the root completed; every started node and leaf completes (lost completion = deadlock or end-of-run census)."),
+        level_text=("Seeded sender-interpreter runs: a random expression tree (depth<=4, <=12 nodes, <=8 scripted leaves) over the real library adaptors, each node re-erased through a harness any_snd so that every edge is a tap; leaves complete inline or later on two actor threads with value/error/done and react to stop or ignore it; an external stop request is placed before start, after k yields or when a chosen leaf has started; faults: throwing callables, a throwing k-th Val copy, spurious weak-CAS failures and wake-ups; the root op state is destroyed inside the root receiver's completion in most runs. C01 oracles: at every tap and at the root at most one signal, none before start(), none without start, none after the root completed; every started node and leaf completes (lost completion = deadlock or end-of-run census). Scope batches (workload of C08/C09): nest/attach/spawn_future operations on v1 and v2 scopes, started, discarded, awaited, dropped, cancelled by their consumer while another thread stops the scope - each started receiver completes exactly once, each join exactly once."),
         level_note=("Trusted: usim stubs, harness erasure (any_snd hides statically selected paths: blocking specialisations etc.). Adaptors outside the interpreter's list are covered by the direct workloads (C06-C09, C13-C19) for their own exactly-once oracles."),
         real=["just/just_error/just_done, then, upon_error, upon_done, let_value, let_error, let_done, finally, sequence, when_all (2-3), stop_when, unstoppable, via, on, with_query_value, materialize+dematerialize, done_as_optional, let_value_with_stop_source", "single_thread_context/manual_event_loop, inline_scheduler", "inplace_stop_source, inplace_stop_token_adapter, fused_stop_source"],
         stub=["harness leaves, taps and erased any_snd plumbing (kit/expr.hpp)", "kit::sim_stop_source", "pthread layer, heap (usim)"],
@@ -206,9 +209,13 @@ PROPS = {
             B("w_expr.cpp", "expr", quick=14, thorough=240, params="faults=1", oracles=["c04."] + RT_LIVE),
             B("w_expr.cpp", "expr", quick=8, thorough=120, params="faults=0", oracles=["c04."] + RT_LIVE),
             B("w_expr.cpp", "expr", quick=6, thorough=90, params="faults=1,more=1,wany=1", oracles=["c04."] + RT_LIVE),
+            # stream adaptors that interpose a stop source / forward stop to the source's next() (take_until, stop_immediately, type_erase, on_stream):
+            # release build so that the adaptors' state assertions are compiled out and only the stop oracle decides
+            B("w_stream.cpp", "stream", cfg="S17r", quick=5, thorough=60, oracles=["c04."] + RT_LIVE),
+            B("w_stream.cpp", "stream", quick=3, thorough=45, oracles=["c04."] + RT_LIVE + RT_LIB),
         ],
         level_text=("Seeded sender-interpreter runs: a random expression tree (depth<=4, <=12 nodes, <=8 scripted leaves) over the real library adaptors, each node re-erased through a harness any_snd so that every edge is a tap; leaves complete inline or later on two actor threads with value/error/done and react to stop or ignore it; an external stop request is placed before start, after k yields or when a chosen leaf has started; faults: throwing callables, a throwing k-th Val copy, spurious weak-CAS failures and wake-ups; the root op state is destroyed inside the root receiver's completion in most runs. C04 oracles: a leaf that completes after the external request_stop() returned (and is not under unstoppable) sees stop_requested()==true on the token it was given; leaves started after it start already-stopped; losers of when_all / stop_when see the internal stop; with the counting harness stop source at the root no registration is live when the root receiver is entered and the source is never touched afterwards."),
-        level_note=('Trusted: as C01. Only when_all, stop_when and let_value_with_stop_source interpose stop sources in this workload; take_until/futures/scopes are in their own checks.'),
+        level_note=('Trusted: as C01. Only when_all, stop_when and let_value_with_stop_source interpose stop sources in this workload; futures/scopes are in their own checks. The stream batches (workload of C13) add take_until and stop_immediately: a next() of the source that completes after request_stop() on the consumer returned must have seen the stop request.'),
         real=["just/just_error/just_done, then, upon_error, upon_done, let_value, let_error, let_done, finally, sequence, when_all (2-3), stop_when, unstoppable, via, on, with_query_value, materialize+dematerialize, done_as_optional, let_value_with_stop_source", "single_thread_context/manual_event_loop, inline_scheduler", "inplace_stop_source, inplace_stop_token_adapter, fused_stop_source"],
         stub=["harness leaves, taps and erased any_snd plumbing (kit/expr.hpp)", "kit::sim_stop_source", "pthread layer, heap (usim)"],
     ),
